@@ -121,13 +121,16 @@ def blocks_for(fmt: str, problem: str, place: str, variant: int, name: str, raw:
         else:
             blk, first, prob = [fld('param a', 'the a.'), fld('param nosuchparam', 'nope')], 1, 1
             clean_fields = [f for f in clean_fields if 'param a' not in f]
+    elif problem == 'consolidated':
+        msg = 'Unable to split consolidated field "Parameters"'
+        blk, first, prob = [':Parameters: a b c'], 0, 0
     elif problem == 'none':
         msg = ''
         blk, first, prob = [], 0, 0
     else:
         raise ValueError(problem)
 
-    is_field_block = problem in ('field', 'param') or place == 'fieldbody'
+    is_field_block = problem in ('field', 'param', 'consolidated') or place == 'fieldbody'
     if fmt in ('epytext', 'restructuredtext'):
         if is_field_block:
             # fields go last; the problem field is glued to the clean fields (one field list)
@@ -154,6 +157,8 @@ def places_for(fmt: str, problem: str) -> List[str]:
 
 def problems_for(kind: str, fmt: str = 'epytext') -> List[str]:
     out = ['xref', 'markup', 'field'] + (['param'] if kind in ('function', 'method') else [])
+    if fmt == 'restructuredtext' and kind in ('function', 'method'):
+        out.append('consolidated')    # ":Parameters: a b c" -- cannot be split
     if fmt in ('google', 'numpy') and kind in ('attribute', 'classattribute'):
         out.remove('field')       # napoleon reads an attribute docstring as "type: description"; a field list is not passed on
     return out
@@ -261,7 +266,7 @@ def make_case(fmt: str, kind: str, problem: str, place: str, variant: int, layou
     layout = dict(layout)
     layout['code_indent'] = code_indent
     layout['ci'] = max(0, code_indent + layout.get('ci_delta', 0))
-    flat = place in ('para', 'para2') or (problem in ('field', 'param') and fmt in ('epytext', 'restructuredtext')) or problem == 'none'
+    flat = place in ('para', 'para2') or (problem in ('field', 'param', 'consolidated') and fmt in ('epytext', 'restructuredtext')) or problem == 'none'
     force_before = bool(layout.get('opening_text')) and not flat
     if fmt == 'epytext' and place == 'item' and layout.get('opening_text'):
         # epytext cannot tell the indentation of text on the opening line ("Lists must be indented")
@@ -351,7 +356,7 @@ def oracle(case: Dict[str, Any], obs: List[Dict[str, Any]]) -> Optional[Dict[str
         if o['statusW'] != wantW:
             return {'what': 'with --warnings-as-errors the status must be 3 exactly when at least one problem was reported '
                             '(%d reported)' % len(plW), 'expected': wantW, 'observed': o['statusW']}
-        if planted and case['problem'] == 'markup' and not parse_failed and pl:
+        if planted and case['problem'] in ('markup', 'consolidated') and not parse_failed and pl:
             return {'what': 'a markup error was reported but the docstring is not recorded as unparsable',
                     'expected': 'parse_errors non-empty', 'observed': o.get('parse_error_sections')}
         if not planted:
@@ -360,6 +365,14 @@ def oracle(case: Dict[str, Any], obs: List[Dict[str, Any]]) -> Optional[Dict[str
             continue
         mine = [p for p in pl if case['msg'] in p[2]]
         others = [p for p in pl if case['msg'] not in p[2]]
+        if case['problem'] == 'consolidated':
+            # the field is then shown as-is through a @newfield: two more reports about the same field, same line rule
+            also = [p for p in others if p[2] in ("Unknown field 'newfield'", "Unknown field 'parameters'")]
+            others = [p for p in others if p not in also]
+            for p in also:
+                if p[0] != '@MOD@' or p[1] != str(t['first']):
+                    return {'what': 'reported line %s of %r is not the first line of the field containing the problem' % (p[1], p[2]),
+                            'expected': t['first'], 'observed': p[1]}
         if others:
             return {'what': 'a problem that is not in the module is reported', 'expected': [], 'observed': others}
         if len(mine) != 1:
@@ -565,6 +578,8 @@ class Check(PropertyCheck):
             cases.append({'op': 'tail', 'verbosity': v, 'wae': wae, 'violations': viol, 'pe': pe})
         for line in [None, 0, 1, 2, 7, 40]:
             cases.append({'op': 'rstreader', 'line': line})
+        for n in (0, 1, 3):
+            cases.append({'op': 'rstconsol', 'doc': 'Some text.\n\n' * n + ':Parameters: a b c\n', 'node_line': 2 * n + 1})
         # (h) attribute line from a field
         for fmt, fl in (('epytext', '@ivar x: the x'), ('restructuredtext', ':ivar x: the x')):
             for lead in (0, 1, 2):
@@ -598,6 +613,8 @@ class Check(PropertyCheck):
                 if sec == 'docstring':
                     n = len(names)
             return enc([6, c['verbosity'], c['wae'], "these %d objects' docstrings contain syntax errors:" % n, c['violations'], c['pe']])
+        if op == 'rstconsol':
+            return enc([9, c['node_line']])
         if op == 'rstreader':
             return enc([8, [] if c['line'] is None else [c['line']]])
         return None
@@ -617,7 +634,7 @@ class Check(PropertyCheck):
             mm, ii = [m[0], [txt(x) for x in m[1]], sorted(txt(x) for x in m[2])], r[:3]
         elif op == 'tail':
             mm, ii = m, r
-        elif op == 'rstreader':
+        elif op in ('rstreader', 'rstconsol'):
             mm, ii = [m[0][0] if m[0] else None, m[1]], r
         elif op == 'attrline':
             ds = 2 + c['lead']                       # the literal opens on line 2, `lead` blank lines are skipped
@@ -853,7 +870,7 @@ class Check(PropertyCheck):
         if v.kind == 'oracle' and 'value' in c and 'sources' in c and 'reported line' in v.what:
             # subtract what the two known defects add; what remains must satisfy the property
             ws = ws_excess(c['value'])
-            rst = 1 if (c['fmt'] != 'epytext' and c['problem'] == 'markup') else 0
+            rst = 1 if c['problem'] == 'consolidated' else 0
             if ws + rst > 0 and isinstance(v.observed, int) and isinstance(c.get('first'), int):
                 adj = v.observed - ws - rst
                 if c['fmt'] == 'epytext':
@@ -863,7 +880,7 @@ class Check(PropertyCheck):
                 else:
                     ok = c['n0'] <= adj <= c['end']
                 if ok:
-                    want = 'rst_parse_error_line_is_one_based' if rst else 'leading_ws_line_longer_than_margin'
+                    want = 'rst_consolidated_field_line_is_one_based' if rst else 'leading_ws_line_longer_than_margin'
                     for k in known:
                         if k.get('match', {}).get('condition') == want:
                             return k
